@@ -117,6 +117,7 @@ class Alarm
     State state_ = State::kNone;  //!< 当前状态
 
     uint32_t target_utc_sec_ = 0;
+    uint32_t last_fired_utc_sec_ = 0; //!< 最近一次已经触发过的时间点。refresh()、disable() 都不清除它，已触发过的时间点不会再被安排
 };
 
 }
